@@ -132,13 +132,14 @@ func c01Operators(p *Prog, r *Report) {
 	r.Func(FuncName(be))
 	r.Func(FuncName(pr))
 	names := binOpNames(p)
-	tabs := localMapLiterals(p, be, "token.Token", "coq.BinOp")
-	nots := localMapLiterals(p, pr, "coq.BinOp", "string")
+	tabs := p.constTables([]*ssa.Function{be}, "token.Token", "coq.BinOp")
+	nots := p.constTables([]*ssa.Function{pr}, "coq.BinOp", "string")
 	if len(tabs) != 1 || len(nots) != 1 {
-		r.Unknown("R01a", "operator tables", be.Pos(), fmt.Sprintf("expected one token→BinOp map literal in binExpr (found %d) and one BinOp→string literal in BinaryExpr.Coq (found %d); a table in another shape needs a checker update", len(tabs), len(nots)))
+		r.Unknown("R01a", "operator tables", be.Pos(), fmt.Sprintf("expected one token→BinOp table (map literal, package-level map or switch function) reachable from binExpr (found %d) and one BinOp→string table reachable from BinaryExpr.Coq (found %d)", len(tabs), len(nots)))
 		return
 	}
-	tok2op, op2s := tabs[0], nots[0]
+	tok2op, op2s := tabs[0].Rows, nots[0].Rows
+	r.Note("operator tables: %s; %s", tabs[0].Where, nots[0].Where)
 	show := map[string]string{}
 	for k, v := range tok2op {
 		var opn int64
@@ -226,12 +227,12 @@ func c01Operators(p *Prog, r *Report) {
 	})
 	r.Check("R01a", "Go + ↦ string append for strings, + otherwise", be.Pos(), okAdd && op2s[plusV] == "+" && op2s[appV] == "+", whyAdd)
 	// op-assign table
-	atabs := localMapLiterals(p, as, "token.Token", "coq.BinOp")
+	atabs := p.constTables([]*ssa.Function{as}, "token.Token", "coq.BinOp")
 	if len(atabs) != 1 {
-		r.Unknown("R01a", "op-assign table", as.Pos(), fmt.Sprintf("expected one token→BinOp map literal in assignStmt, found %d", len(atabs)))
+		r.Unknown("R01a", "op-assign table", as.Pos(), fmt.Sprintf("expected one token→BinOp table reachable from assignStmt, found %d", len(atabs)))
 	} else {
 		showA := map[string]string{}
-		for k, v := range atabs[0] {
+		for k, v := range atabs[0].Rows {
 			var opn int64
 			fmt.Sscan(v, &opn)
 			showA[token.Token(k).String()] = names[opn]
